@@ -16,6 +16,7 @@ ASSUMPTIONS = {
  'A12': 'A12 BaseComponent.advance (utils/component.py) as used by the agent scheduler sets thing["state"], publishes and pushes as its arguments say and does not touch the scheduler\'s own structures; the agent-side wrapper AgentComponent.advance is under contract (C05), the base implementation is not',
  'A13': 'A13 radical.utils.lazy_bisect(data, check=..) (a dependency, not part of /repo): calls check at most once per element and nothing else that touches the scheduler, and returns three lists partitioning data into accepted / refused-or-skipped / raised; the scheduler-state summary after it composes the verified contract of _try_allocation over that call sequence (induction over the calls, not machine-checked)',
  'A14': 'A14 the command lines of the external launchers mean what their documentation says: mpirun -np N -host h1,..,hN starts N processes, one per listed host entry (MPT: -np per listed host); aprun / ccmrun -n N starts N; ssh / rsh <host> runs one process on host; mpiexec -np with --hostfile / -f / -rf, srun --ntasks --nodes --nodelist / --nodefile, prun --np --host h:k, ibrun -n as read by harness/lm_sim.py',
+ 'A15': 'A15 strings are identifiers: str.split / strip / startswith / in, os.path.basename and radical.utils.Url parsing are uninterpreted functions; the contracts pin which of their results go where, not what they compute',
  'A11': 'A11 pyvc, z3 and cvc5 are the trusted computing base (canaries, cover checks, self-test edits and the CPython cross-check are the guards)',
 }
 
@@ -246,6 +247,20 @@ PROPS['C09'] = dict(
              'cores / GPUs where the method can pin': 'B (mpiexec rank file) / not decided elsewhere',
              'depends only on the task at hand': 'P (frame: launcher object unchanged) for the six; B (replayed after other generations) for all',
              'refuses instead of a command for another process count': 'P (ssh rsh fork) / B'})
+
+PROPS['C11'] = dict(
+    level='other',
+    claim='staging directives: expand_staging_directives (dictionary form: what is given is kept, target defaults to the base name of the source, action to the documented default; short form: source and target are read on the right sides of > >> < <<, in that precedence; one directive out per directive in), complete_url (a schema the context names is placed below the location the context gives, file:// and unknown schemas are left alone, a host on a sandbox schema is refused), the dispatch loop of the agent input stager (every directive with a local action - copy, link, move, tarball, download - is carried out by exactly one operation, the tarball is the one the client pushed into the task sandbox) and the triage loop of the client output stager (a task is staged iff it ended DONE or asked for stage_on_error and has transfer directives) are proved for all inputs. That files then exist with the source\'s content is decided by a bounded native run of the real stagers on a temporary file tree (labelled bounded). Two genuine defects were found and repaired (tarball never unpacked; stage_on_error ignored on the client side)',
+    note='the file system, cp / link / move and tar themselves are outside any contract here; the client input stager (_handle_task: tar creation, transfer) and the agent output stager are covered by the bounded run only; remote (SAGA) endpoints cannot be exercised in the sandbox',
+    assumptions=['A2', 'A4', 'A9', 'A10', 'A11', 'A15'],
+    trusted_base=['radical.utils.Url (parsing a text into schema / host / path): uninterpreted', 'os.path.basename / exists / isdir / join: uninterpreted', 'StagingHelper backends (cp -r, os.link, shutil.move, tarfile)'],
+    explanation='function-against-spec contracts on the URL / directive functions; ghost operation log for the dispatch loop; bounded end-to-end run',
+    bounded=[dict(name='staging-e2e', cmd=['harness/run_bounded.py', 'staging-e2e'], timeout=900)],
+    clauses={'short form and dictionary form expand to the same directive shape with documented defaults': 'P',
+             'URLs denote the documented locations (client, resource, session, pilot, task sandbox; relative paths)': 'P (complete_url) + B',
+             'every action is carried out (transfer, copy, link, move, tarball)': 'P (agent dispatch) + B (files exist with content)',
+             'outputs of a failed task only with stage_on_error': 'P (client triage loop) + B',
+             'a directive that cannot be carried out fails that task only': 'B'})
 
 PROPS['C05'] = dict(
     level='other',
